@@ -1,0 +1,53 @@
+//go:build verif
+
+package memidm
+
+import (
+	"encoding/hex"
+	"fmt"
+	"sort"
+	"strings"
+)
+
+func verifHex(s string) string {
+	if s == "" {
+		return "-"
+	}
+
+	return hex.EncodeToString([]byte(s))
+}
+
+// VerifDump returns a canonical dump of the four maps and the two counters (verification hook).
+func (idm *MemIdm) VerifDump() string {
+	idm.grpMu.RLock()
+	defer idm.grpMu.RUnlock()
+	idm.usrMu.RLock()
+	defer idm.usrMu.RUnlock()
+
+	var gn, gi, un, ui []string
+
+	for k, g := range idm.groupsByName {
+		gn = append(gn, fmt.Sprintf("%s=%s:%d", verifHex(k), verifHex(g.name), g.gid))
+	}
+
+	for k, g := range idm.groupsById {
+		gi = append(gi, fmt.Sprintf("%d=%s:%d", k, verifHex(g.name), g.gid))
+	}
+
+	for k, u := range idm.usersByName {
+		un = append(un, fmt.Sprintf("%s=%s:%d:%d", verifHex(k), verifHex(u.name), u.uid, u.gid))
+	}
+
+	for k, u := range idm.usersById {
+		ui = append(ui, fmt.Sprintf("%d=%s:%d:%d", k, verifHex(u.name), u.uid, u.gid))
+	}
+
+	sort.Strings(gn)
+	sort.Strings(gi)
+	sort.Strings(un)
+	sort.Strings(ui)
+
+	return fmt.Sprintf("dump gn[%s] gi[%s] un[%s] ui[%s] max %d %d",
+		strings.Join(gn, ","), strings.Join(gi, ","), strings.Join(un, ","), strings.Join(ui, ","),
+		idm.maxGid, idm.maxUid)
+}
